@@ -302,11 +302,34 @@ def none_value_case(col, auto_update):
     col.add(None if not bad else {"sig": "native::coherence::none_valued_input", "what": f"offset = None assigned (auto_update={auto_update}): " + "; ".join(bad), "input": {"auto_update": auto_update}})
 
 
+def set_seed_case(col, auto_update):
+    """Model.set_seed as a value assignment: the seeded node (eps = noise(seed) * a) and its dependents are recomputed from the NEW seed - at once with
+    auto-update on, by the next update with auto-update off (until then they report outdated)"""
+    import jax
+    a = lsl.Var(np.float32(2.0), name="a")
+    eps = lsl.Calc(lambda a_, seed: jax.random.normal(seed, (3,)) * a_, a, _name="eps", _needs_seed=True)
+    z = lsl.Calc(lambda e_: e_ + 1.0, eps, _name="z")
+    m = lsl.GraphBuilder().add(z).build_model()
+    m.auto_update = auto_update
+    key = jax.random.PRNGKey(123)
+    m.set_seed(key)
+    bad = None
+    if not auto_update:
+        if not (m.nodes["eps"].outdated and m.nodes["z"].outdated):
+            bad = "after set_seed with auto-update off the seeded node / its dependent report up to date with values of the old seed"
+        m.update()
+    want = np.asarray(jax.random.normal(jax.random.split(key, 1)[0], (3,)) * 2.0)
+    got_e, got_z = np.asarray(m.nodes["eps"].value), np.asarray(m.nodes["z"].value)
+    if bad is None and not (np.allclose(got_e, want) and np.allclose(got_z, want + 1.0) and not any(n.outdated for n in m.nodes.values())):
+        bad = f"eps = {got_e.tolist()}, recomputed from the new seed {want.tolist()}; z = {got_z.tolist()}; outdated: {[n.name for n in m.nodes.values() if n.outdated]}"
+    col.add(None if bad is None else {"sig": "native::coherence::set_seed", "what": f"auto_update={auto_update}: {bad}", "input": {"auto_update": auto_update}})
+
+
 def core_native(col, seed, n_graphs=4, n_hist=3, length=6):
     """the part of this stand-in that other properties re-run (their statements rest on the caching protocol): all scripted histories, the
     special scenarios, and a few seeded random graphs x histories; every violation found is reported under the calling property"""
     rng = random.Random(seed)
-    for fn, args in ((failed_assignment_case, ()), (inplace_case, (True,)), (inplace_case, (False,)), (none_value_case, (True,)), (none_value_case, (False,)),
+    for fn, args in ((set_seed_case, (True,)), (set_seed_case, (False,)), (failed_assignment_case, ()), (inplace_case, (True,)), (inplace_case, (False,)), (none_value_case, (True,)), (none_value_case, (False,)),
                      (transformed_state_case, ("tree_map_asarray",))):
         try:
             fn(col, *args)
@@ -327,7 +350,7 @@ def core_native(col, seed, n_graphs=4, n_hist=3, length=6):
                 col.add({"sig": f"native::coherence::exception::{type(e).__name__}", "what": f"{type(e).__name__}: {str(e)[:200]}", "input": {"graph": spec.nodes}})
 
 
-CORE_RULE = ("BOUNDED (shared with C01): the caching protocol: scripted histories on a join-shaped and a two-path graph, failed / in-place / None assignments, a restored state with "
+CORE_RULE = ("BOUNDED (shared with C01): the caching protocol: scripted histories on a join-shaped and a two-path graph, failed / in-place / None assignments, set_seed, a restored state with "
              "array-valued flags, and 4 seeded random graphs x 3 histories of 6 operations, each compared with a from-scratch rebuild")
 
 
@@ -335,6 +358,11 @@ def bounded(tier, seed):
     rng = random.Random(seed)
     col = util.Collector()
     n_graphs, n_hist, length = (12, 4, 6) if tier == "quick" else (150, 12, 7)
+    for au in (True, False):
+        try:
+            set_seed_case(col, au)
+        except Exception as e:
+            col.add({"sig": f"native::coherence::exception::{type(e).__name__}", "what": f"{type(e).__name__}: {str(e)[:200]}", "input": {"scenario": "set_seed", "auto_update": au}})
     for au in (True, False):
         try:
             none_value_case(col, au)
@@ -368,7 +396,7 @@ def bounded(tier, seed):
             except Exception as e:
                 col.add({"sig": f"native::coherence::exception::{type(e).__name__}", "what": f"{type(e).__name__}: {str(e)[:200]}", "input": {"graph": spec.nodes}})
     return {"evaluations": col.evals, "distinct_nontrivial": col.evals,
-            "rule": (f"BOUNDED: {len(SCRIPTS) + len(ORDER_SCRIPTS)} scripted histories on a join-shaped graph and on a graph where a node is reachable by two paths of different length (targeted update order) (outdated nodes left behind while auto-update is on again, then an assignment to a non-ancestor); a state with pending nodes restored after a JAX / numpy transformation (array-valued flags); None assigned to an optional input of a cached calculation; {n_graphs} seeded random DAGs (1-3 strong variables with or without a distribution, 1-4 further nodes out of cached Calc, transient Calc, weak variable, weak "
+            "rule": (f"BOUNDED: {len(SCRIPTS) + len(ORDER_SCRIPTS)} scripted histories on a join-shaped graph and on a graph where a node is reachable by two paths of different length (targeted update order) (outdated nodes left behind while auto-update is on again, then an assignment to a non-ancestor); a state with pending nodes restored after a JAX / numpy transformation (array-valued flags); None assigned to an optional input of a cached calculation; set_seed with auto-update on and off; {n_graphs} seeded random DAGs (1-3 strong variables with or without a distribution, 1-4 further nodes out of cached Calc, transient Calc, weak variable, weak "
                      f"variable with distribution, bare Value node; 1-2 parents each) x {n_hist} random histories of {length} operations (assign, toggle auto-update, full update, targeted "
                      "update of a random node, Node.clear_state() of a random caching node, save, restore) on the real model; call counters in every node function; after every operation every up-to-date node is compared with a "
                      f"from-scratch rebuild at the current input values. seed={seed}"),
